@@ -159,7 +159,8 @@ class Case:
         # identify particles by mass/position (the tree may have re-ordered them): here nothing moved, order is kept
         got = self.acc(sim)
         ref, sabs = reference(G, soft, m, X, N_active, tptype, ignore, tuple(ghosts), box or (0, 0, 0))
-        K = 16.0 + 2 * N
+        nimg = (2 * ghosts[0] + 1) * (2 * ghosts[1] + 1) * (2 * ghosts[2] + 1)
+        K = 16.0 + 2 * N + 4 * math.sqrt(N * nimg)     # N x images summands, accumulated in a routine-specific order
         self.compare(got, ref, sabs, N, K, V, "force:%s:type%d:ignore%d:%s" % (routine, tptype, ignore, "ghost" if tuple(ghosts) != (0, 0, 0) else "noghost"), tag)
         na = N if N_active == -1 else N_active
         if not V and na == N and ignore == 0 and N >= 2:
@@ -323,7 +324,7 @@ def run(ctx):
         "samples": [list(tasks[0]), list(tasks[-1])], "exhaustive": True,
     }
     return ctx.finish(LEVEL, cov, assumptions=[
-        "reference = the pairwise sum of the statement evaluated in numpy.longdouble (64-bit mantissa); tolerance (16+2N)*u*sum|terms|",
+        "reference = the pairwise sum of the statement evaluated in numpy.longdouble (64-bit mantissa); tolerance (16+2N+4 sqrt(N x images))*u*sum|terms|",
         "validity filter: TREE only with all particles active and ignore_terms=0; COMPENSATED without ghost boxes; self-images excluded for every routine",
         "MERCURIUS/TRACE: heliocentric, encounter members within the switching radii of each other and every other particle outside them, as the integrators guarantee",
     ])
